@@ -468,7 +468,7 @@ def run_all(chk, mj, hooks, proofs_ok, top, base, absdir, tags, outside):
                 if o and (o[0] == "CRASH" or o[0] == 2):
                     leaked = True
                 path = dec(mod_e[i], 1)[0] if mod_e[i][0] == 1 else None
-                if path is not None and cwd is not None:
+                if path and cwd is not None:        # the empty path stays empty: opening "" is ENOENT whatever the cwd
                     path = os.path.join(cwd, path)
                 exp = expected_e2e(how, path)
                 got = ("out", text) if text is not None else ("err", o[1]) if o and o[0] == 0 else ("none",) if o == [3] else ("?", o)
